@@ -234,6 +234,23 @@ claim("C09", "proof",
       "through its subset test (the driver reports an exhausted budget); function calls / component outputs are not executed by the oracle.",
       "Lean 4 proof (lock-step non-interference for all programs and replacements; closure = reachability; sink coverage) + correspondence + perturbation oracle", "5 (C09)")
 
+claim("C01", "proof",
+      "PARTIAL by nature (stated in DESIGN.md): totality of the real process cannot be a theorem about a model alone. Lean 4 theorems "
+      "(Props/C01.lean, plus the cited theorems of C10/C15/C16/C18/C19) discharge the panic sites of the modelled code: the three "
+      "`unreachable!()`s of the desugarer and the two `panic!`s of IR lifting are unreachable, the dominator-tree asserts and the duplicate-"
+      "declaration assert cannot fire, the fixpoint loops that are modelled terminate. Tie 1 (translator-like): tools/panic_scan.py extracts "
+      "every unwrap/expect/panic!/unreachable!/assert*!/todo!/unimplemented! of the non-test code (129 sites) on every run and compares the "
+      "set with ledger/panic_sites.json, where each site is proved (theorem must exist) / guarded / invariant / environment / dead-api (re-"
+      "checked: not called from another file) / test-only; a new, moved or reworded site is an undischarged obligation. Tie 2 (outcome search): "
+      "the whole pipeline in-process and the real binary on special inputs (odd literals, pragmas, strings, arities, main forms), 14 nesting "
+      "shapes up to depth 100, generated projects with token- and byte-level mutations, token soup, random and non-UTF-8 bytes, 3 curves x 3 "
+      "levels: only a normal return / exit 0 or 1 with the summary line within the time limit is accepted; crashes are grouped by site and "
+      "shrunk.",
+      "Lean kernel + standard axioms for the cited theorems; sites with disposition guarded/invariant/environment rest on the stated reason "
+      "and on the outcome search, not on a proof; implicit panics (indexing, arithmetic overflow in debug builds, allocation failure, stack "
+      "depth beyond the 1 GB thread, superlinear time on nesting deeper than 100) are only searched for.",
+      "Lean 4 proofs for modelled panic sites + regenerated panic-site ledger + outcome search (in-process and real binary)", "5 (C01)")
+
 ALL = ["C%02d" % i for i in range(1, 21)]
 def main():
     checks = []
